@@ -21,3 +21,8 @@ Proof.
   split; [exact Hw|]. split; [lia|]. split; [lia|].
   split; [lra|]. split; [intros ->; lra|]. lra.
 Qed.
+
+Corollary advance_rule_simple asc desc width vbw vbh :
+  let a := advance_width asc desc width vbw vbh in
+  (width <= a)%Z /\ (a = width \/ a = py_round (inject_Z (asc - desc) * vbw / vbh)).
+Proof. intros a. destruct (advance_rule asc desc width vbw vbh) as (H1 & _ & H3 & _). split; assumption. Qed.
